@@ -35,6 +35,7 @@ INFO = {
         'events in the same virtual instant as a deadline/cancel/registration may go either way',
     ],
 }
+INFO['rule'] += " Later additions: directed plans in which the request's own send is suspended (server not reading, write buffer full) while the answer arrives."
 
 SERVER_KINDS = ('status', 'stats', 'join', 'address')
 PEER_KINDS = ('userinfo', 'shares', 'dircontents')
